@@ -241,6 +241,8 @@ def check_c12(prog, rep, tier, cfg):
     # ---------------------------------------------------------------- C12.f the re-indenter writes with the settings the reconstructor emits with
     import layout
     layout.same_settings_rule(prog, rep, "C12.f")
+    layout.string_pass_visits_every_line(prog, rep, "C12.h")
+    layout.no_effect_behind_a_short_circuit(prog, rep, "C12.i")
     # the StringFormatter's settings are the wrapper's own (no second settings value inside core)
     mk = [s for b2 in prog.bodies.values() if b2.crate.startswith("pasfmt") for _, _, s in b2.stmts()
           if s["k"] == "assign" and s["rv"]["k"] == "aggregate" and norm(s["rv"].get("adt", "")).endswith("multiline_strings::StringFormatter")]
